@@ -540,4 +540,182 @@ theorem undeclState_denN (hI : Inv m) (hO : OrderOK m.tbl)
 
 end State
 
+/-! ### `undeclare_vars` -/
+
+/-- a node sits at level `l` -/
+def Tbl.LevelHasNode (t : Tbl) (l : Nat) : Prop := ∃ u n, t.node? u = some n ∧ n.lvl = l
+
+/-- the names `undeclare_vars(*vrs)` returns -/
+def undeclRemoved (t : Tbl) (vrs : List String) : List String :=
+  (t.vars.toList.filter fun p => !(undeclFull t vrs).contains p.2).map (·.1)
+
+/-- REFUSALS: a name that is not declared, or a variable whose level carries a node, makes
+`undeclare_vars` raise `ValueError`; the state is unchanged -/
+theorem undeclare_refuses (m : Mgr) (vrs : List String)
+    (h : ∃ v ∈ vrs, m.tbl.vars[v]? = none ∨
+      ∃ l, m.tbl.vars[v]? = some l ∧ m.tbl.LevelHasNode l) :
+    undeclareVars vrs m = (.error .value, m) := by
+  unfold undeclareVars
+  by_cases h1 : (vrs.any fun v => !m.tbl.vars.contains v) = true
+  · simp only [h1, if_true]
+  · simp only [h1, Bool.false_eq_true, if_false]
+    rw [if_pos]
+    obtain ⟨v, hv, hc⟩ := h
+    rw [List.any_eq_true]
+    refine ⟨v, hv, ?_⟩
+    rcases hc with hc | ⟨l, hl, u, n, hn, hnl⟩
+    · simp only [hc]
+    · simp only [hl]
+      rw [List.contains_iff_mem]
+      exact (mem_undeclNodeLevels m.tbl l).mpr (Or.inr ⟨u, n, hn, hnl⟩)
+
+/-- SUCCESS: with every named variable declared and at a level without nodes, the call returns
+`undeclRemoved` and leaves the state `undeclState` -/
+theorem undeclare_ok (m : Mgr) (hW : WF m.tbl) (hO : OrderOK m.tbl) (vrs : List String)
+    (hvrs : ∀ v ∈ vrs, ∃ l, m.tbl.vars[v]? = some l ∧ ¬ m.tbl.LevelHasNode l) :
+    undeclareVars vrs m =
+      (.ok (undeclRemoved m.tbl vrs), undeclState m (undeclFull m.tbl vrs)) := by
+  unfold undeclareVars
+  have h1 : (vrs.any fun v => !m.tbl.vars.contains v) = false := by
+    rw [List.any_eq_false]
+    intro v hv
+    obtain ⟨l, hl, _⟩ := hvrs v hv
+    rw [TreeMap.contains_eq_isSome_getElem?, hl]; simp
+  have h2 : ∀ v ∈ vrs, ∀ l, m.tbl.vars[v]? = some l → (undeclNodeLevels m.tbl).contains l = false := by
+    intro v hv l' hl'
+    obtain ⟨l, hl, hno⟩ := hvrs v hv
+    have e : l = l' := by rw [hl] at hl'; exact Option.some.inj hl'
+    rw [← e, ← Bool.not_eq_true, List.contains_iff_mem, mem_undeclNodeLevels]
+    rintro (h | h)
+    · have := hO.lt v l hl; omega
+    · exact hno h
+  have h3 : (m.tbl.succ.toList.any fun p =>
+      (undeclNewLevel? (undeclFull m.tbl vrs) (1 + m.nvars) p.2.lvl).isNone) = false := by
+    rw [List.any_eq_false]
+    intro p hp
+    have hn : m.tbl.node? p.1 = some p.2 := TreeMap.mem_toList_iff_getElem?_eq_some.mp hp
+    have a : p.2.lvl < 1 + m.nvars := by
+      have := hW.lvl_lt _ _ hn; show p.2.lvl < 1 + m.tbl.nvars; omega
+    have b : p.2.lvl ∈ undeclFull m.tbl vrs :=
+      (mem_undeclFull _ _ _).mpr (Or.inl (Or.inr ⟨p.1, p.2, hn, rfl⟩))
+    simp [undeclNewLevel?_eq, a, b]
+  simp only [h1, h3, Bool.false_eq_true, if_false]
+  rw [if_neg]
+  · rfl
+  · rw [Bool.not_eq_true, List.any_eq_false]
+    intro v hv
+    obtain ⟨l, hl, _⟩ := hvrs v hv
+    simp only [hl]
+    rw [h2 v hv l hl]; simp
+
+theorem mem_undeclRemoved (t : Tbl) (vrs : List String) (v : String) :
+    v ∈ undeclRemoved t vrs ↔ ∃ l, t.vars[v]? = some l ∧ l ∉ undeclFull t vrs := by
+  unfold undeclRemoved
+  rw [List.mem_map]
+  constructor
+  · rintro ⟨p, hp, rfl⟩
+    rw [List.mem_filter] at hp
+    exact ⟨p.2, TreeMap.mem_toList_iff_getElem?_eq_some.mp hp.1, by simpa using hp.2⟩
+  · rintro ⟨l, h1, h2⟩
+    exact ⟨(v, l), List.mem_filter.mpr ⟨TreeMap.mem_toList_iff_getElem?_eq_some.mpr h1, by simpa using h2⟩, rfl⟩
+
+/-- the removed names: exactly the named ones, or (no name given) exactly the variables whose
+level carries no node -/
+theorem undeclRemoved_spec (t : Tbl) (hO : OrderOK t) (vrs : List String)
+    (hvrs : ∀ v ∈ vrs, ∃ l, t.vars[v]? = some l ∧ ¬ t.LevelHasNode l) (v : String) :
+    v ∈ undeclRemoved t vrs ↔
+      if vrs = [] then (∃ l, t.vars[v]? = some l ∧ ¬ t.LevelHasNode l) else v ∈ vrs := by
+  rw [mem_undeclRemoved]
+  have hused : ∀ l, t.vars[v]? = some l → (t.LevelUsed l ↔ t.LevelHasNode l) := by
+    intro l hl
+    constructor
+    · rintro (h | h)
+      · have := hO.lt v l hl; omega
+      · exact h
+    · exact Or.inr
+  by_cases he : vrs = []
+  · simp only [he, if_true]
+    constructor
+    · rintro ⟨l, h1, h2⟩
+      refine ⟨l, h1, fun hn => h2 ?_⟩
+      exact (mem_undeclFull _ _ _).mpr (Or.inl ((hused l h1).mpr hn))
+    · rintro ⟨l, h1, h2⟩
+      refine ⟨l, h1, fun hm => ?_⟩
+      rcases (mem_undeclFull _ _ _).mp hm with h | ⟨h, _⟩
+      · exact h2 ((hused l h1).mp h)
+      · exact h rfl
+  · simp only [he, if_false]
+    constructor
+    · rintro ⟨l, h1, h2⟩
+      by_cases hv : v ∈ vrs
+      · exact hv
+      · exact absurd ((mem_undeclFull _ _ _).mpr (Or.inr ⟨he, v, hv, h1⟩)) h2
+    · intro hv
+      obtain ⟨l, h1, h2⟩ := hvrs v hv
+      refine ⟨l, h1, fun hm => ?_⟩
+      rcases (mem_undeclFull _ _ _).mp hm with h | ⟨_, w, hw, hwl⟩
+      · exact h2 ((hused l h1).mp h)
+      · have a := (hO.inv v l).mp h1
+        have b := (hO.inv w l).mp hwl
+        rw [a] at b; cases b; exact hw hv
+
+/-- SPECIFICATION of a successful `undeclare_vars(*vrs)` -/
+theorem undeclare_spec (m : Mgr) (hI : Inv m) (hO : OrderOK m.tbl) (vrs : List String)
+    (hvrs : ∀ v ∈ vrs, ∃ l, m.tbl.vars[v]? = some l ∧ ¬ m.tbl.LevelHasNode l) :
+    ∃ (rm : List String) (m' : Mgr) (f : Nat → Nat),
+      undeclareVars vrs m = (.ok rm, m') ∧
+      -- the removed names
+      (∀ v, v ∈ rm ↔
+        if vrs = [] then (∃ l, m.tbl.vars[v]? = some l ∧ ¬ m.tbl.LevelHasNode l) else v ∈ vrs) ∧
+      -- the other variables are kept, at the compacted level `f l`
+      (∀ (v : String) (j : Nat), m'.tbl.vars[v]? = some j ↔
+        ∃ l, m.tbl.vars[v]? = some l ∧ v ∉ rm ∧ j = f l) ∧
+      OrderOK m'.tbl ∧
+      -- relative order kept
+      (∀ (v w : String) (i j i' j' : Nat), m.tbl.vars[v]? = some i → m.tbl.vars[w]? = some j →
+        m'.tbl.vars[v]? = some i' → m'.tbl.vars[w]? = some j' → (i < j ↔ i' < j')) ∧
+      Inv m' ∧
+      -- same node numbers, same children, levels relabeled by a map increasing on the used levels
+      Relabel m.tbl m'.tbl f ∧
+      -- every reference keeps its function by name
+      (∀ u, m.tbl.Mem u → m'.tbl.Mem u ∧ ∀ σ, denN m'.tbl u σ = denN m.tbl u σ) ∧
+      m'.ref = m.ref ∧ m'.minFree = m.minFree ∧ m'.cache.isEmpty = true ∧ m'.roots = m.roots := by
+  have hfull : ∀ l, m.tbl.LevelUsed l → l ∈ undeclFull m.tbl vrs :=
+    fun l h => (mem_undeclFull _ _ _).mpr (Or.inl h)
+  have hvars := undeclState_vars m (undeclFull m.tbl vrs) hO
+  refine ⟨_, _, undeclMap (undeclFull m.tbl vrs), undeclare_ok m hI.wf.toWF hO vrs hvrs,
+    undeclRemoved_spec m.tbl hO vrs hvrs, ?_, undeclState_order m _ hO, ?_,
+    undeclState_inv m _ hI hO hfull, undeclState_relabel m _ hI.wf.toWF hO hfull,
+    undeclState_denN m _ hI hO hfull, rfl, rfl, ?_, rfl⟩
+  · intro v j
+    rw [hvars, mem_undeclRemoved]
+    constructor
+    · rintro ⟨l, h1, h2, h3⟩
+      exact ⟨l, h1, fun ⟨l', h4, h5⟩ => by rw [h1] at h4; cases h4; exact h5 h2, h3⟩
+    · rintro ⟨l, h1, h2, h3⟩
+      refine ⟨l, h1, ?_, h3⟩
+      by_cases hm : l ∈ undeclFull m.tbl vrs
+      · exact hm
+      · exact absurd ⟨l, h1, hm⟩ h2
+  · intro v w i j i' j' hv hw hv' hw'
+    obtain ⟨l, h1, h2, h3⟩ := (hvars v i').mp hv'
+    obtain ⟨l', h1', h2', h3'⟩ := (hvars w j').mp hw'
+    rw [hv] at h1; cases h1
+    rw [hw] at h1'; cases h1'
+    rw [h3, h3']
+    exact undeclMap_lt_iff h2 h2'
+  · show (∅ : TreeMap (List Int) Int).isEmpty = true
+    exact TreeMap.isEmpty_emptyc
+
+/-- every call either is refused (ValueError, state unchanged) or succeeds as specified -/
+theorem undeclare_cases (m : Mgr) (vrs : List String) :
+    (∃ v ∈ vrs, m.tbl.vars[v]? = none ∨ ∃ l, m.tbl.vars[v]? = some l ∧ m.tbl.LevelHasNode l) ∨
+    (∀ v ∈ vrs, ∃ l, m.tbl.vars[v]? = some l ∧ ¬ m.tbl.LevelHasNode l) := by
+  by_cases h : ∃ v ∈ vrs, m.tbl.vars[v]? = none ∨ ∃ l, m.tbl.vars[v]? = some l ∧ m.tbl.LevelHasNode l
+  · exact Or.inl h
+  · refine Or.inr fun v hv => ?_
+    cases hl : m.tbl.vars[v]? with
+    | none => exact absurd ⟨v, hv, Or.inl hl⟩ h
+    | some l => exact ⟨l, rfl, fun hn => h ⟨v, hv, Or.inr ⟨l, hl, hn⟩⟩⟩
+
 end DD
